@@ -61,7 +61,7 @@ def run(ctx):
             ps = ps[:cap // 2] + ctx.rng.sample(ps[cap // 2:], cap // 2)
         for p in ps:
             jobs.append((fam, p))
-    replies = ctx.model.batch([fam['request'](p) for fam, p in jobs]) if jobs else []
+    replies = ctx.model.batch([fam.get('request_spec', fam['request'])(p) for fam, p in jobs]) if jobs else []
     for (fam, p), rep in zip(jobs, replies):
         name = fam['name']
         a = outcome(fam['build'], p, CNF)
@@ -123,7 +123,7 @@ def run(ctx):
         ps = fam['params'](ctx.rng, 'quick')[:8 if quick else 40]
         for p in ps:
             try:
-                argv = fam['cli'](p, tmp)
+                argv = fam['cli'](p, tmp)          # used at once (files with fixed names are overwritten by the next call)
             except Exception:
                 argv = None
             if not argv:
